@@ -5,6 +5,7 @@ import HcProofs.Lemmas.Framing
 import HcProofs.Lemmas.Characteristic
 import HcProofs.Props.C06
 import HcProofs.Lemmas.Reentrant
+import HcProofs.Lemmas.ChunkedWriter
 /-
   C09 — what the application sets is what a controller reads, and vice versa.
   Models: HcModel/CharHttp.lean (id dispatch and response shape of GET / PUT /characteristics),
@@ -288,5 +289,48 @@ theorem put_answer_unfixed_refuted :
     ((putLoop db rs []).2.map fun es => es.map fun e => (e.aid, e.iid, e.status))
       = some [(1, 9, some 0), (1, 999, some (-70409)), (1, 10, some (-70406))] := by
   decide
+
+-- hap.chunkedWriter.Write as a loop over any response writer -------------------------------------------------------
+
+open Hc.ChunkedWriter in
+/-- `chunkedWrite` (the abstract behaviour used by `pipeline_identity`) IS the loop of hap/chunked_writer.go over a
+    writer that keeps the io.Writer contract: the slices handed on are `chunks n body`, all of them are taken, and the
+    count returned is the length of the body. For every chunk size > 0 and every body. -/
+theorem chunked_loop_is_chunks (n : Nat) (hn : 0 < n) (body : Bytes) :
+    write n hn body [] = ⟨body.length, false, chunkedWrite n body, chunkedWrite n body⟩ := by
+  have := Lemmas.ChunkedWriter.loop_contract n hn body 0 [] [] (Nat.zero_le _)
+  simpa [write, chunkedWrite] using this
+
+open Hc.ChunkedWriter in
+/-- Whatever the response writer does (any script of short writes and failures, then contract-keeping): every slice it
+    is handed is non-empty and at most `n` bytes; the bytes it took, in order, are exactly the first `nn` bytes of the
+    body, where `nn` is the count `Write` returns (no byte skipped, none handed over twice after a short write); without
+    an error that is the whole body; and a failing call is the last call (nothing is written after an error). -/
+theorem chunked_writer_loses_and_repeats_nothing (n : Nat) (hn : 0 < n) (body : Bytes) (script : List Resp) :
+    let o := write n hn body script
+    (∀ c ∈ o.offered, c.length ≤ n ∧ c ≠ []) ∧
+    o.accepted.flatten = body.take o.nn ∧
+    o.nn ≤ body.length ∧
+    (o.err = false → o.nn = body.length ∧ o.accepted.flatten = body ∧ o.offered.length = o.accepted.length) ∧
+    (o.err = true → o.offered.length = o.accepted.length + 1) := by
+  intro o
+  have h1 := Lemmas.ChunkedWriter.loop_offered n hn body 0 script [] [] rfl (by simp)
+  have h2 := Lemmas.ChunkedWriter.loop_accepted n hn body 0 script [] [] (by simp)
+  have h3 := Lemmas.ChunkedWriter.loop_nn_le n hn body 0 script [] [] (Nat.zero_le _)
+  refine ⟨h1.1, h2, h3, ?_, h1.2.2⟩
+  intro hok
+  have h4 := Lemmas.ChunkedWriter.loop_ok_all n hn body 0 script [] [] (Nat.zero_le _) hok
+  refine ⟨h4, ?_, h1.2.1 hok⟩
+  show (write n hn body script).accepted.flatten = body
+  rw [show (write n hn body script).accepted.flatten = body.take (write n hn body script).nn from h2]
+  rw [show (write n hn body script).nn = body.length from h4, List.take_length]
+
+open Hc.ChunkedWriter in
+/-- non-vacuity: a body of 5 bytes in chunks of 2 over a writer that takes 1 byte of the first slice, then fails on the
+    third call: slices [0,1] [1,2] [3,4]; 3 bytes taken; the failing slice is the last one handed over. -/
+example :
+    write 2 (by decide) [0, 1, 2, 3, 4] [⟨1, false⟩, ⟨7, false⟩, ⟨0, true⟩]
+      = ⟨3, true, [[0, 1], [1, 2], [3, 4]], [[0], [1, 2]]⟩ := by
+  simp [write, loop]
 
 end Hc.Props.C09
